@@ -45,6 +45,7 @@ func runC10(c *Cfg) {
 	c10Invalid(c, r.Sub())
 	c10Values(c, r.Sub())
 	c10Production(c, r.Sub())
+	c10DocModel(c, r.Sub())
 }
 
 // ---- implementation drivers (every call recover-guarded) ---------------------------------
